@@ -130,6 +130,9 @@ func runC18(c *Ctx) {
 	// "values come back byte-for-byte": an empty value stays empty, it does not become the null reply
 	rulePayloadStores(c, "R18.i")
 	ruleIsNilMeansNull(c, "R18.i")
+	// what the store is given is what the client sent: parsed payloads are owned copies
+	ruleOwnedBytes(c, "R18.j")
+	ruleRecycledObjectsReset(c, "R18.p")
 
 	rid = "R18.c"
 	c.rule(rid, "the example handlers Set and HSet store the value parameter itself (no transformation) into the record / hash")
